@@ -46,6 +46,8 @@ def tdiv(a, b):
 def expect(op, args, minimal):
     name = OPS[op]
     if name == 'CAT':
+        if len(args[0]) + len(args[1]) > 520:
+            return ANY          # longer than any push may be: the property does not say whether the concatenation or a size error results
         return ('val', [args[0] + args[1]])
     if name in ('SUBSTR', 'LEFT', 'RIGHT'):
         s = args[0]
@@ -162,6 +164,56 @@ def check_tuple(h, ctx, op, args, z, executed, sv, minimal):
         raise Violation(case, 'OP_%s %r computes %r, expected %r' % (OPS[op], case['args'], st, [x.hex() for x in exp[1]]), observed=st, expected=[x.hex() for x in exp[1]])
 
 
+def random_tuples():
+    from hypothesis import strategies as st
+    num = st.one_of(st.integers(-2 ** 31 + 1, 2 ** 31 - 1), st.integers(-300, 300), st.sampled_from(NUMS), st.sampled_from([46340, 46341, -46341, 65535, 65536, 2 ** 30, 2 ** 24 - 1, 2 ** 16 + 1]))
+    sized = st.sampled_from([0, 1, 2, 3, 4, 5, 8, 75, 76, 255, 256, 259, 260, 261, 300, 519, 520]).flatmap(lambda n: st.binary(min_size=n, max_size=n))
+    strs = st.one_of(st.binary(max_size=40), sized)
+
+    @st.composite
+    def tup(draw):
+        op = draw(st.sampled_from(sorted(OPS)))
+        name = OPS[op]
+        if name == 'CAT':
+            a = draw(strs)
+            b = draw(st.one_of(strs, st.sampled_from([519, 520, 521]).map(lambda t: bytes(min(520, max(0, t - len(a)))))))
+            args = (a, b)
+        elif name == 'SUBSTR':
+            s_ = draw(strs)
+            b_ = draw(st.one_of(st.integers(0, len(s_) + 1), st.integers(-1, 600)))
+            n_ = draw(st.one_of(st.integers(0, len(s_) + 1), st.just(len(s_) - b_), st.just(len(s_) - b_ + 1), st.integers(-1, 600)))
+            args = (s_, R.num_enc(b_), R.num_enc(n_))
+        elif name in ('LEFT', 'RIGHT'):
+            s_ = draw(strs)
+            args = (s_, R.num_enc(draw(st.one_of(st.integers(0, len(s_) + 1), st.just(len(s_)), st.integers(-1, 600)))))
+        elif name == 'INVERT':
+            args = (draw(strs),)
+        elif name in ('AND', 'OR', 'XOR'):
+            a = draw(strs)
+            args = (a, draw(st.one_of(st.binary(min_size=len(a), max_size=len(a)), st.binary(min_size=len(a), max_size=len(a)), strs)))
+        elif name in ('2MUL', '2DIV'):
+            args = (R.num_enc(draw(num)),)
+        elif name in ('LSHIFT', 'RSHIFT'):
+            args = (R.num_enc(draw(st.one_of(st.integers(0, 2 ** 31 - 1), num))), R.num_enc(draw(st.one_of(st.integers(0, 62), st.integers(-2, 70)))))
+        else:
+            args = (R.num_enc(draw(num)), R.num_enc(draw(st.one_of(num, st.integers(-3, 3)))))
+        return (op, args, draw(st.sampled_from([0, 1, 3])), draw(st.booleans()))
+    return tup()
+
+
+def check_random(c, ctx):
+    op, args, sv, minimal = c
+    if not hasattr(check_random, 'h'):
+        check_random.h = Harness('plain')
+    ctx.count('random:' + OPS[op])
+    check_tuple(check_random.h, ctx, op, args, 1, True, sv, minimal)
+
+
+def w_random(ctx, wid, seed, examples):
+    core.hyp_campaign(ctx, 'random-operands', random_tuples(), check_random, examples, seed,
+                      lambda c: dict(op=OPS[c[0]], args=[a.hex() for a in c[1]], z=1, executed=True, sv=c[2], minimaldata=c[3]))
+
+
 def run_ops(h, script, minimal=False):
     g = h.req(kvline('run', script=script, flags=F['MINIMALDATA'] if minimal else 0, sv=0, z=1, mode='step', trace=0))
     if 'crash' in g or 'exit' in g:
@@ -230,6 +282,7 @@ def run(tier, t0):
         for p in range(parts):
             tasks.append((w_table, dict(op=op, part=p, parts=parts, tier=tier)))
     tasks.append((w_relations, dict()))
+    tasks += [(w_random, dict(examples=8000 if tier == 'quick' else 100000)) for _ in range(8 if tier == 'quick' else core.WORKERS)]
     m = core.parallel(PID, tasks)
     m.exhaustive = (tier == 'thorough')
     return core.finish(PID, tier, m, RULE % len(V), t0, min_nontrivial=5000,
